@@ -264,6 +264,9 @@ pub struct Probe {
     pub input_ids: InputIds,
     pub out: Arc<Mutex<ProbeOut>>,
     pub roots: Vec<LiveId>,
+    /// also write the CodeTransform this section was handed into the payload (so that the emitted bytes
+    /// depend on it: used by the serial-vs-parallel comparison)
+    pub embed_transform: bool,
 }
 
 #[derive(Debug, Clone, Copy)]
@@ -307,7 +310,7 @@ impl Probe {
         for t in m.data.iter() {
             live.push(('D', pos(&input_ids.data, &t.id()), LiveId::D(t.id())));
         }
-        Probe { live, input_ids: input_ids.clone(), out, roots: vec![] }
+        Probe { live, input_ids: input_ids.clone(), out, roots: vec![], embed_transform: false }
     }
 }
 
@@ -333,6 +336,16 @@ impl CustomSection for Probe {
             match r {
                 Ok(i) => s.push_str(&format!("{} {} {}\n", k, in_idx, i)),
                 Err(_) => s.push_str(&format!("{} {} !\n", k, in_idx)),
+            }
+        }
+        if self.embed_transform {
+            let o = self.out.lock().unwrap();
+            s.push_str(&format!("ct.start {}\n", o.code_section_start));
+            for (f, a, b) in &o.function_ranges {
+                s.push_str(&format!("ct.range {} {} {}\n", *f as i64, a, b));
+            }
+            for (a, b) in &o.instruction_map {
+                s.push_str(&format!("ct.pair {} {}\n", a, b));
             }
         }
         Cow::Owned(s.into_bytes())
